@@ -143,3 +143,56 @@ func verifC09CrashInFlush() {
 	}
 	verifReach("end")
 }
+
+// C09 (IDs created while a flush is being prepared): another caller (a shard's index goroutine)
+// creates a new metric name and a new tag value while PrepareFlush runs - every interleaving at the
+// stores' locks within the pre-emption bound -, the flush completes, and the node dies before the
+// next flush round. After recovery every name found has the ID it had, and names created afterwards
+// never get an ID that a recovered name holds.
+func verifC09PrepareVsCreate3() { verifC09PrepareVsCreate() }
+
+func verifC09PrepareVsCreate() {
+	d := &verifDisk{seq: make([]byte, SeqSize), crashAt: -1, families: map[string]*verifKVFamily{}}
+	for _, n := range []string{"ns", "metric", "tagValue"} {
+		d.families[n] = &verifKVFamily{persisted: map[uint32][][]byte{}}
+	}
+	verifCommitGate = func() bool { return verifTheDisk.alive() }
+	mm := verifOpenMetaDB(d)
+	ns := []byte("default")
+	ids := map[string]uint32{}
+	gen := func(db *metricMetaDatabase, name string) uint32 {
+		id, err := db.GenMetricID(ns, []byte(name))
+		verifAssert(err == nil, "an ID is generated")
+		return uint32(id)
+	}
+	ids["a"] = gen(mm, "a")
+	verifSpawn(func() { mm.PrepareFlush() })
+	verifSpawn(func() { ids["mid"] = gen(mm, "mid") })
+	verifJoinAll()
+	verifAssert(mm.Flush() == nil, "the flush completes")
+	// the node dies before the next flush round: reopen on what reached the disk
+	mm2 := verifOpenMetaDB(d)
+	used := map[uint32]string{}
+	for _, name := range []string{"a", "mid"} {
+		want := ids[name]
+		nsID, okNS, _ := mm2.ns.GetValue(uint32(ns[0]), ns)
+		if !okNS {
+			continue
+		}
+		id, ok, err := mm2.metric.GetValue(nsID, []byte(name))
+		verifAssert(err == nil, "lookup after recovery")
+		if ok {
+			verifAssert(id == want, "a name found after recovery has the ID it had before")
+			used[id] = name
+		}
+	}
+	_, okA := used[ids["a"]]
+	verifAssert(okA, "a completed flush makes the flushed names durable")
+	for _, name := range []string{"x", "y"} {
+		id := gen(mm2, name)
+		_, clash := used[id]
+		verifAssert(!clash, "a name created after recovery never gets the ID of a recovered name")
+		used[id] = name
+	}
+	verifReach("end")
+}
